@@ -65,10 +65,17 @@ class Spaces(object):
             self.V = odl.tensor_space(2, dtype=dt)
         self.S = self.V.field
 
-    def vec(self, v):
-        """abstract value (list of C json) -> element of V (tiled)."""
+    def vec(self, v, arith=False):
+        """abstract value (list of C json) -> element of V (tiled).  arith=True: the element is an operand of one of the
+        arithmetic overloads (v * A, A * v, A + v, ...); those objects are remembered in self.arith (the caller may
+        later hand one of them to the expression as `out`)."""
         arr = np.array([cnum_to_py(c) for c in v], dtype=self.dtype)
-        return self.V.element(np.tile(arr, self.tile))
+        el = self.V.element(np.tile(arr, self.tile))
+        if arith:
+            if not hasattr(self, 'arith'):
+                self.arith = []
+            self.arith.append(el)
+        return el
 
     def scalar(self, c):
         z = cnum_to_py(c)
@@ -198,17 +205,17 @@ def build(e, sp, subst=None, matmul=False):
     if t == 'addscal':
         return A + sp.scalar(e['a'])
     if t in ('lvec', 'flvm'):
-        return (sp.vec(e['v']) @ A) if matmul else (sp.vec(e['v']) * A)
+        return (sp.vec(e['v'], True) @ A) if matmul else (sp.vec(e['v'], True) * A)
     if t == 'rvec':
-        return (A @ sp.vec(e['v'])) if matmul else (A * sp.vec(e['v']))
+        return (A @ sp.vec(e['v'], True)) if matmul else (A * sp.vec(e['v'], True))
     if t == 'addvec':
-        return A + sp.vec(e['v'])
+        return A + sp.vec(e['v'], True)
     if t == 'raddvec':
-        return sp.vec(e['v']) + A
+        return sp.vec(e['v'], True) + A
     if t == 'rsubvec':
-        return sp.vec(e['v']) - A
+        return sp.vec(e['v'], True) - A
     if t == 'subvec':
-        return A - sp.vec(e['v'])
+        return A - sp.vec(e['v'], True)
     if t == 'pow':
         return A ** e['n']
     raise ValueError(t)
